@@ -22,6 +22,27 @@ CLAIMED = {
         ref='§7 C09'),
 }
 
+CLAIMED['C08'] = dict(
+    text=("Lean theorems over the text model, for entry lists and texts of any length: reader∘writer = id on well-formed entries "
+          "through StringIO and universal-newline files (C08_load_dump, C08_load_dump_sorted), each entry is one line whose "
+          "whitespace-split is exactly to_list() (C08_one_line, C08_one_line_fields), and every accepted unsigned text parses to "
+          "well-formed entries whose dump is accepted again with equal entries (C08_fixed_point); built on decodePath_encodePath for all "
+          "code points incl. surrogates. Tie: Bridge.Text, exhaustive code-point tables (escaped?/separator?/escape text for all "
+          "0x110000 code points), differential dump/load incl. gz/bz2/lzma/xz through real files."),
+    note=TB + "Codec round-trips (gzip/bz2/lzma) are exercised, not proved. WF bounds sizes to what str()/int() can print (4300 digits).",
+    technique="Lean 4 theorems over an executable model + extracted-constant bridge + exhaustive tables + differential correspondence",
+    ref='§7 C08')
+CLAIMED['C04'] = dict(
+    text=("Exact characterisation, for line sequences of any length: load reports a signed Manifest iff the lines have the cleartext-"
+          "signature shape (C04_signed_iff = C04_signed_shape + C04_shape_accepted): only inert lines outside the block, header and "
+          "signature lines never parsed, entries exactly those of the dash-unescaped cleartext, exactly BEGIN..END handed to "
+          "verification; truncation and misplaced armor are syntax errors; trailing whitespace cannot influence a line's entry "
+          "(C04_trailing_ws_irrelevant). Tie: Bridge.Text, exhaustive line-class sequences, and genuinely gpg-signed Manifests mutated "
+          "and loaded with real verification, entries compared with the cleartext `gpg --decrypt` authenticates."),
+    note=TB + "gpg itself (what it authenticates, its canonicalisation and framing) is exercised with gpg 2.2.40, not modelled.",
+    technique="Lean 4 theorems (exact shape characterisation) + bridge + exhaustive class sequences + real-gpg differential oracle",
+    ref='§7 C04')
+
 PENDING = ['C01', 'C02', 'C03', 'C04', 'C05', 'C06', 'C07', 'C08', 'C10', 'C11', 'C12', 'C13', 'C14', 'C15', 'C16',
            'C17', 'C18', 'C19', 'C20']
 
